@@ -202,8 +202,11 @@ def popon_caption(rng, rows=None):
     nrows = rng.randrange(1, 5)
     rows = rows or sorted(rng.sample(range(1, 16), nrows))
     syms = []
+    # now and then a load whose rows mostly open with an italic preamble (italics carried across
+    # several repositionings within one load)
+    p_italic = 0.7 if rng.random() < 0.2 else 0.15
     for r in rows:
-        italic = rng.random() < 0.15
+        italic = rng.random() < p_italic
         col = 0 if italic else rng.choice([0, 0, 4, 8, 12, 16, 20, 24, 28])
         syms.append({"k": "PAC", "r": r, "c": col, "i": italic})
         to = 0
